@@ -123,6 +123,29 @@ class ExcGen:
         if r.random() < 0.5 and vars_:
             v = r.choice(vars_)
             body.append(ExprS(Assign(Var(v), Num(self.uniq()))))
+        if r.random() < 0.25:
+            # a function, lambda or method DEFINED inside the try block (its returns must not touch the handlers
+            # of the code that defines or calls it), called inside the block and possibly again in a catch clause
+            self.tags.add('definition_inside_try')
+            h = self.name('h')
+            kind = r.choice(['fn', 'fn', 'lambda_block', 'lambda_expr', 'method'])
+            hb = [Let('t', Bin('+', Var('a'), Num(1))), If(Bin('>', Var('t'), Num(1000000)), [Return(Num(0))]),
+                  Return(Bin('*', Var('t'), Num(2)))]
+            if kind == 'fn':
+                body.append(Fn(h, ['a'], hb))
+                call = Call(Var(h), [Num(self.uniq())])
+            elif kind == 'lambda_block':
+                body.append(Let(h, Lambda(['a'], hb, False)))
+                call = Call(Var(h), [Num(self.uniq())])
+            elif kind == 'lambda_expr':
+                body.append(Let(h, Lambda(['a'], Bin('*', Var('a'), Num(2)), True)))
+                call = Call(Var(h), [Num(self.uniq())])
+            else:
+                cn = 'H' + h
+                body.append(Class(cn, None, None, [Fn('go', ['a'], hb)]))
+                call = Call(Prop(Call(Var(cn), []), 'go'), [Num(self.uniq())])
+            for _ in range(r.randint(1, 3)):
+                body.append(Print([Str('helper'), call]))
         exit_kind = r.choice(['raise', 'raise', 'raise', 'complete', 'break', 'continue', 'return', 'nested',
                               'return_raises', 'return_raises'])
         if exit_kind == 'return_raises' and not in_fn:
